@@ -211,3 +211,50 @@ def resize_projection(trace, job):
             ev.append({"e": "end", "len": tabs[0]["len"] if tabs else 0, "sc": sn.get("sc", 0), "nt": sn.get("next_table", 0),
                        "dropok": 1 if trace.get("end", {}).get("drop_ok") else 0, "panics": panics})
     return {"id": trace["id"], "ev": ev}
+
+
+def hist_projection(trace, job):
+    """call/ret of per-key ops, retain (with pred events) and iterators (with yield events)
+    -> Trace_Hist input"""
+    p = lin_projection(trace, job)
+    is_set = job.get("kind") == "set"
+    ev = []
+    keys = set(p["keys"])
+    threads = set(p["threads"])
+    pending = {}
+    for e in trace["ev"]:
+        k = e.get("e")
+        if k == "call":
+            op = e["op"]
+            v = e.get("v", 0)
+            if is_set:
+                op = SET_RENAME.get(op, op)
+                # every HashSet::insert brings a fresh unit value instance (identified by the call's uid)
+                v = (e.get("n") or 1) if op in ("insert", "try_insert") else 0
+            c = {"e": "call", "t": e["t"], "op": op, "k": e.get("k", 0), "tag": e.get("tag", 0), "v": v,
+                 "pl": e.get("pl", 0), "f": e.get("f", "") or "-"}
+            pending[e["t"]] = c
+            threads.add(e["t"])
+            if op in PERKEY:
+                keys.add(e["k"])
+            ev.append(c)
+        elif k == "ret":
+            c = pending.get(e["t"])
+            if c is None:
+                continue
+            ok = e.get("ok", 0)
+            if is_set and c["op"] == "insert":
+                ok = 1 - ok
+            seen = e.get("seen", [])
+            ev.append({"e": "ret", "t": e["t"], "ok": ok, "v": e.get("v", 0), "tag": e.get("tag", 0),
+                       "ni": e.get("ni", 0), "pl": e.get("pl", 0), "seen": seen[0] if seen else 0, "ncb": len(seen),
+                       "panic": e.get("panic", 0)})
+            pending[e["t"]] = None
+        elif k == "pred":
+            ev.append({"e": "pred", "t": e["t"], "k": e["k"], "v": e["v"], "keep": e["keep"]})
+            keys.add(e["k"])
+        elif k == "yield":
+            ev.append({"e": "yield", "t": e["t"], "k": e["k"], "tag": e["tag"], "v": e["v"]})
+            if e["k"]:
+                keys.add(e["k"])
+    return {"id": trace["id"], "set": 1 if is_set else 0, "keys": sorted(keys), "threads": sorted(threads), "ev": ev}
